@@ -341,6 +341,9 @@ Prop_C15(S) == IsRecv(S) /\ S.hasParse =>
 ReturningNative(in) == in.dn = "RET"
 Prop_C16(S) == IsOrbiterPacket(S) /\ S.in.dn # "L" =>
   /\ (~ReturningNative(S.in) => ~S.ok)
+  \* "processed only when": for any other token no action controller is entered and no request reaches
+  \* a bridge, whatever happens to the packet afterwards (instrumented wiring: controllers are wrapped)
+  /\ (~ReturningNative(S.in) /\ S.hasTrace => S.perAction = <<>> /\ S.req = <<>>)
   /\ (S.ok /\ S.hasCredit =>
         /\ Len(S.credit) = 1
         /\ LET c == S.credit[1]  src == <<"IBC", SrcCp(S.in.chan)>> IN
